@@ -687,6 +687,20 @@ static bool_t _inited;			/*< мьютекс создан? */
 static size_t _ctr;				/*< счетчик обращений */
 static rng_state_st* _state;	/*< состояние */
 
+#ifdef BEE2_VERIF
+/* verification hook: restore the file-scope statics to their load-time values
+   so that one OS process can host many simulated process lifetimes
+   (see /verif/DESIGN.md, H-reset) */
+void rngVerifReset()
+{
+	_once = 0;
+	memSetZero(_mtx, sizeof(_mtx));
+	_inited = FALSE;
+	_ctr = 0;
+	_state = 0;
+}
+#endif
+
 size_t rngCreate_keep()
 {
 	return sizeof(rng_state_st) + MAX2(beltHash_keep(), brngCTR_keep());
